@@ -91,7 +91,7 @@ def facts_dir(repo=REPO, config="lib"):
     return d, dt, key
 
 
-def prune_cache(keep, max_entries=6):
+def prune_cache(keep, max_entries=int(os.environ.get("THV_CACHE_MAX", "12"))):
     try:
         ents = [(os.path.getmtime(os.path.join(CACHE, e)), e) for e in os.listdir(CACHE) if e != keep]
     except OSError:
